@@ -1311,7 +1311,8 @@ func (fr *Frame) execIndexAddr(st *State, x *ssa.IndexAddr) {
 		ln := "(sl_len " + base.S + ")"
 		fr.safety(st, "index", and(g.idxLe(g.idxConst(0), i), g.idxLt(i, ln)), "index out of range (slice)")
 		a := &Addr{ref: "(sl_ref " + base.S + ")", root: xt.Elem(), elems: true,
-			path: []pathElem{{isIndex: true, index: g.define("ix", g.idxSort(), g.idxAdd("(sl_off "+base.S+")", i))}}}
+			path: []pathElem{{isIndex: true, index: g.define("ix", g.idxSort(), g.idxAdd("(sl_off "+base.S+")", i)),
+				efn: g.elemFn(g.S.sortOf(xt.Elem())), off: "(sl_off " + base.S + ")", rel: i}}}
 		fr.set(x, Val{T: x.Type(), A: a})
 	case *types.Pointer:
 		at := xt.Elem().Underlying().(*types.Array)
